@@ -38,12 +38,17 @@ impl Cfg {
 
 pub const INSTR_NAMES: [&str; 6] = ["NoInstruments", "LogsWithoutMetrics", "LogsWithMetrics", "LogsWithExpensiveMetrics", "MetricsWithoutLogs", "ExpensiveMetricsWithoutLogs"];
 pub const INSTR: [usize; 6] = [Instruments::NoInstruments.into(), Instruments::LogsWithoutMetrics.into(), Instruments::LogsWithMetrics.into(), Instruments::LogsWithExpensiveMetrics.into(), Instruments::MetricsWithoutLogs.into(), Instruments::ExpensiveMetricsWithoutLogs.into()];
-pub fn metrics_on(i: usize) -> bool { Instruments::from(INSTR[i]).cheap_profiling() }
+/// the four settings whose name says "Metrics" (decided here by name, not by asking the library's own predicates)
+pub fn metrics_on(i: usize) -> bool { i >= 2 }
 
 pub struct Observed { pub ok: u32, pub timed_out: u32, pub failed: u32, pub status: String, pub start: u64, pub finish: u64 }
 
-async fn item_future(ledger: Arc<Ledger>, i: u32, beh: Beh, paused: bool, timeout_ms: u64) -> Result<u32, Box<dyn std::error::Error + Send + Sync>> {
-    let g = Guard::start(&ledger, i);
+fn item_future(ledger: Arc<Ledger>, i: u32, beh: Beh, paused: bool, timeout_ms: u64) -> impl std::future::Future<Output = Result<u32, Box<dyn std::error::Error + Send + Sync>>> + Send {
+    let born = tokio::time::Instant::now();
+    item_future_(ledger, i, beh, paused, timeout_ms, born)
+}
+async fn item_future_(ledger: Arc<Ledger>, i: u32, beh: Beh, paused: bool, timeout_ms: u64, born: tokio::time::Instant) -> Result<u32, Box<dyn std::error::Error + Send + Sync>> {
+    let g = Guard::start_born(&ledger, i, born);
     let slow = |ms: u64| async move {
         if ms > 0 { if paused { tokio::time::sleep(Duration::from_millis(10 * ms)).await } else { futures::future::pending::<()>().await } }
         else if paused { tokio::time::sleep(Duration::from_millis(50)).await } else { tk::yields(5).await }
@@ -139,13 +144,13 @@ pub fn evaluate(cfg: &Cfg, ledger: &Ledger, o: &Observed) -> Vec<(String, String
     let count = |f: &dyn Fn(&Beh) -> bool| cfg.script.iter().filter(|b| f(b)).count() as u32;
     let (n_ok, n_err, n_slow, n_slowerr) = (count(&|b| matches!(b, Beh::Ok { .. })), count(&|b| matches!(b, Beh::Err { .. })), count(&|b| matches!(b, Beh::Slow)), count(&|b| matches!(b, Beh::SlowErr)));
     let (mut exp_ok, mut exp_failed, mut exp_timed) = if with_timeout { (n_ok, n_err, n_slow + n_slowerr) } else if cfg.variant == Variant::FuturesNonFallible { (n, 0, 0) } else { (n_ok + n_slow, n_err + n_slowerr, 0) };
-    // A timeout may cancel an item only after the item has been in flight for the whole timeout (measured by the item itself, first poll .. drop, on the
+    // A timeout may cancel an item only after the item has been in flight for the whole timeout (measured by the item itself, construction of its future .. drop, on the
     // runtime's clock). An ok / error item that WAS in flight that long -- possible on the multi-thread runtime when the machine stalls -- is legitimately
     // timed out and is accounted as such; one cancelled earlier is a violation whatever the load.
-    let cancelled: Vec<(u32, u64)> = ledger.cancelled_after_ms.lock().unwrap().clone();
+    let cancelled: Vec<(u32, u64)> = ledger.cancelled_after_us.lock().unwrap().clone();
     let mut legit_timeouts: Vec<u32> = Vec::new();
-    for (i, ms) in &cancelled {
-        if with_timeout && *ms < cfg.timeout_ms { p.push(("item_timed_out_early".into(), format!("item {i} ({:?}) was cancelled {ms} ms after its first poll; the futures timeout is {} ms", cfg.script[*i as usize], cfg.timeout_ms))) }
+    for (i, us) in &cancelled {
+        if with_timeout && *us < cfg.timeout_ms * 1000 { p.push(("item_timed_out_early".into(), format!("item {i} ({:?}) was cancelled {us} us after its future was handed to the executor; the futures timeout is {} ms", cfg.script[*i as usize], cfg.timeout_ms))) }
         else if with_timeout { match cfg.script[*i as usize] { Beh::Ok { .. } => { exp_ok -= 1; exp_timed += 1; legit_timeouts.push(*i) } Beh::Err { .. } => { exp_failed -= 1; exp_timed += 1; legit_timeouts.push(*i) } _ => {} } }
         if p.len() > 6 { break }
     }
@@ -237,7 +242,7 @@ fn single(args: &Args, acc: &mut Acc, seed: u64, verbose: bool) {
     let Some(o) = o else { acc.inconclusive += 1; acc.count("inconclusive_watchdog", 1); if acc.notes.len() < 10 { acc.notes.push(format!("watchdog: {}", cfg.json().to_string())) } return };
     acc.count("items", cfg.script.len() as u64);
     if cfg.aged_ms > 0 { acc.count("runs_whose_executor_had_outlived_its_timeout_when_the_first_item_arrived", 1) }
-    acc.count("items_cancelled_by_the_timeout(in-flight time checked against the timeout)", ledger.cancelled_after_ms.lock().unwrap().len() as u64);
+    acc.count("items_cancelled_by_the_timeout(in-flight time checked against the timeout)", ledger.cancelled_after_us.lock().unwrap().len() as u64);
     let problems = evaluate(&cfg, &ledger, &o);
     let interesting = cfg.script.iter().any(|b| !matches!(b, Beh::Ok { .. }));
     if interesting { acc.nontrivial(cfg.script.iter().fold(mix(cfg.limit as u64, cfg.instruments as u64 * 7 + cfg.timeout_ms), |h, b| mix(h, match b { Beh::Ok { y, sleep } => *y as u64 * 16 + *sleep as u64, Beh::Err { y, sleep } => 1000 + *y as u64 * 16 + *sleep as u64, Beh::Slow => 2000, Beh::SlowErr => 3000 })) ^ cfg.variant as u64) }
